@@ -495,6 +495,7 @@ func (p *StreamPool) newConnection(k key, s Stream, ts time.Time) (c *connection
 	c, p.free = p.free[index], p.free[:index]
 	// An assembler that looked the object up before it was closed may be
 	// about to check it: reset it under its own lock.
+	verifYieldM(10, &c.mu)
 	c.mu.Lock()
 	c.reset(k, s, ts)
 	c.mu.Unlock()
